@@ -1,4 +1,5 @@
 import Crv.Proofs.StoreSound
+import Crv.Proofs.Skeleton
 /-!
 C18 — Both storage backends implement the same abstract map and lose nothing.
 
@@ -186,5 +187,10 @@ example : (runMap decAll MapStore.new exOps).2 =
      .look .absent, .look (.revoked [7]), .slot (some [2])] := by decide
 example : (runLdb decAll (Ldb.fresh 3).1 (Ldb.fresh 3).2 exOps).2 = (runMap decAll MapStore.new exOps).2 := by decide
 end Examples
+
+/-- The hand-written `Store` model this property rests on was transcribed from exactly these sources: the fingerprints are
+recomputed from /repo on every run (tools/extract/skeleton.go), so any change to one of the functions breaks this obligation. -/
+theorem store_sources_as_transcribed : Crv.Generated.skeletonStore = Crv.Skeleton.expectedStore :=
+  Crv.Skeleton.store_sources_as_transcribed
 
 end Crv.Props.C18
